@@ -85,6 +85,25 @@ class FuncRef:
         return '<func %s.%s>' % (self.module.name, self.qualname)
 
 
+class LazyGen:
+    """A generator expression bound to a name: evaluated (once) at the first
+    use of the name - every consumer in the code under contract drains it."""
+
+    def __init__(self, interp, node, fr):
+        self.interp, self.node, self.fr = interp, node, fr
+        self.done, self.val = False, None
+        # (the outermost iterable is evaluated when the generator is made)
+        self.src = (interp.eval(node.generators[0].iter, fr),) if len(
+            node.generators) == 1 else None
+
+    def force(self):
+        if not self.done:
+            self.val = self.interp.comprehension(self.node, self.fr, 'gen',
+                                                 src=self.src)
+            self.done = True
+        return self.val
+
+
 class ModuleRef:
     def __init__(self, name):
         self.name = name
@@ -231,7 +250,10 @@ class Interp:
         if node.id in getattr(fr, 'globals_declared', ()):
             return self.world.global_name(fr.module, node.id, self)
         try:
-            return fr.lookup(node.id)
+            v = fr.lookup(node.id)
+            if isinstance(v, LazyGen):
+                v = v.force()
+            return v
         except KeyError:
             pass
         return self.world.global_name(fr.module, node.id, self)
@@ -320,6 +342,17 @@ class Interp:
         m = self.world.binop_model(type(node.op).__name__, v, None, self)
         if m is not NotImplemented:
             return m
+        if isinstance(node.op, (ast.USub, ast.UAdd)) and isinstance(v, SVal):
+            # an opaque value: some number (its negation uninterpreted) or
+            # not a number at all (TypeError)
+            from . import models
+            tag = S.tag_fn(v.t)
+            if self.branch(z3.Or(tag == 1, tag == 2, tag == 3)):
+                if isinstance(node.op, ast.UAdd):
+                    return v
+                return models.apply_uf('py.neg', (v,), 'Val')
+            self.raise_('TypeError', 'bad operand type for unary op',
+                        node=node)
         raise Unsupported('unary %s on %r' % (type(node.op).__name__, v))
 
     def e_BoolOp(self, node, fr):
@@ -483,6 +516,13 @@ class Interp:
             return a.t == b.t
         if a is b:
             return True
+        if isinstance(a, ClassRef) and isinstance(b, ClassRef):
+            # one class, however many references to it were resolved
+            if a.node is not None or b.node is not None:
+                return a.node is b.node
+            return a.name == b.name and getattr(
+                a.module, 'name', a.module) == getattr(
+                    b.module, 'name', b.module)
         if isinstance(a, SVal) and hasattr(b, 'as_val'):
             return a.t == b.as_val()
         if isinstance(b, SVal) and hasattr(a, 'as_val'):
@@ -877,6 +917,18 @@ class Interp:
                 r = models.apply_uf('py.getattr', (obj, name), 'Val')
                 self.calls.append(('getattr', (obj, name), r))
                 return r
+        if isinstance(obj, Opaque) and name in ('sub', 'subn'):
+            # a module-level compiled pattern (opaque global): substitution
+            # is SOME string function of its arguments
+            from . import models
+            pat = obj.name
+
+            def re_sub(repl, text, *rest):
+                r = models.apply_uf('re.sub:' + pat, (
+                    repl if isinstance(repl, (str, S.SStr)) else 0, text),
+                    'Str')
+                return r
+            return Model('re.sub', re_sub)
         if type(obj).__name__ in ('SMapCell', 'WriteLog', 'SetMapCell',
                                   'Bucket'):
             return BoundMethod(obj, name)
@@ -983,7 +1035,11 @@ class Interp:
             from . import models
             sym = 'call'
             extra = ()
-            if kwargs:
+            if kwargs and not all(isinstance(k, str) for k in kwargs):
+                # computed keyword names: names and values, as written
+                sym += '$**'
+                extra = tuple(x for k in kwargs for x in (k, kwargs[k]))
+            elif kwargs:
                 sym += '$' + '$'.join(sorted(kwargs))
                 extra = tuple(kwargs[k] for k in sorted(kwargs))
             r = models.apply_uf(sym, (fn,) + tuple(args) + extra, 'Val')
@@ -1096,11 +1152,14 @@ class Interp:
                 out[k] = self.eval(node.value, f2)
         return out
 
-    def comprehension(self, node, fr, kind):
+    def comprehension(self, node, fr, kind, src=None):
         if len(node.generators) != 1:
             raise Unsupported('nested comprehension')
         g = node.generators[0]
-        src = self.eval(g.iter, fr)
+        if src is None:
+            src = self.eval(g.iter, fr)
+        else:
+            src = src[0]
         if kind == 'gen' and isinstance(src, S.SVal) and not g.ifs:
             # a generator expression over an opaque iterable: lazy, nothing
             # is walked when it is created
@@ -1206,6 +1265,12 @@ class Interp:
     def s_Assign(self, node, fr):
         if isinstance(node.value, ast.Yield):
             raise Unsupported('yield expression value')
+        if isinstance(node.value, ast.GeneratorExp) and len(
+                node.targets) == 1 and isinstance(node.targets[0], ast.Name):
+            # `g = (f(x) for x in xs)`: nothing runs until g is used - the
+            # elements (and their effects) are evaluated at its first use
+            fr.assign(node.targets[0].id, LazyGen(self, node.value, fr))
+            return
         v = self.eval(node.value, fr)
         for t in node.targets:
             self.assign_target(t, v, fr)
@@ -1290,6 +1355,13 @@ class Interp:
             return
         r = self.world.setitem_model(obj, idx, v, self, node)
         if r is not NotImplemented:
+            return
+        if type(obj).__name__ == 'ObjVal' and self.world.find_method(
+                obj.cls, '__setitem__') is not None:
+            # obj[k] = v on an instance of a repository class: its own
+            # __setitem__
+            self.call(self.world.attr_model(obj, '__setitem__', self),
+                      [idx, v], {}, node)
             return
         raise Unsupported('item store into %r' % (obj,))
 
